@@ -355,7 +355,7 @@ def check_main(check_id, tier, seed, nomin=False):
     timeout = plan.get('timeout', 900)
     if runs > plan['runs']:
         timeout = int(timeout * runs / plan['runs']) + 60      # dev scans with VERIF_RUNS
-    nsalts = getattr(mod, 'SALTS', 1)
+    nsalts = mod.salts(tier) if hasattr(mod, 'salts') else getattr(mod, 'SALTS', 1)
     J = njobs()
     nshards = max(1, J // nsalts)
     wd = workdir(check_id)
